@@ -244,6 +244,10 @@ MonViol(mm, m2, e) ==
   \* ---------------- C19
   \cup (IF \E x \in m2.wire : \E y \in m2.wire : x[1] = y[1] /\ x[2] = y[2] /\ x[3] # y[3] THEN {"C19.NonceReuse"} ELSE {})
   \cup (IF \E x \in m2.idns : \E y \in m2.idns : x[1] = y[1] /\ x[2] # y[2] THEN {"C19.IdNonceReuse"} ELSE {})
+  \* the harness keeps one ledger of raw id-nonces for the whole run (all behaviours): idnrep = this value was already
+  \* carried by a different WHOAREYOU datagram, possibly of an earlier behaviour
+  \cup (IF \E i \in DOMAIN e.net : e.net[i].kind = "way" /\ "idnrep" \in DOMAIN e.net[i] /\ e.net[i].idnrep
+        THEN {"C19.IdNonceReuse"} ELSE {})
   \cup (IF Evs(e, "Panic") # {} THEN {"Panic"} ELSE {})
 
 Next ==
